@@ -105,7 +105,10 @@ func (t *Ticket) Unmarshal(b []byte) error {
 
 // Marshal the Ticket.
 func (t *Ticket) Marshal() ([]byte, error) {
-	b, err := asn1.Marshal(*t)
+	// The decrypted part is not part of the Ticket's encoding (it holds the session key).
+	m := *t
+	m.DecryptedEncPart = EncTicketPart{}
+	b, err := asn1.Marshal(m)
 	if err != nil {
 		return nil, err
 	}
